@@ -47,6 +47,7 @@ pub struct C05 {
 	/// scripted: a send without change is mined and cancelled before any refresh
 	exact: Option<Exact>,
 	exacts_left: u32,
+	scanned_since_taint: BTreeSet<usize>,
 }
 
 struct Exact {
@@ -103,6 +104,7 @@ impl C05 {
 			focus: None,
 			spent_unconfirmed: BTreeSet::new(),
 			exact: None,
+			scanned_since_taint: BTreeSet::new(),
 			exacts_left: if run.rng.chance(1, 3) { 1 } else { 0 },
 		}
 	}
@@ -235,6 +237,18 @@ impl C05 {
 		};
 		if !self.fresh.contains(&w) || b.dirty.iter().any(|d| *d != id) {
 			run.cov.not_judged("cancel_with_other_activity_since_base");
+			return v;
+		}
+		// a wallet that cancelled a transaction after broadcasting it holds records only
+		// a scan brings back to the chain's truth (its ordinary refresh skips them): the
+		// "before" state is then not a state a refresh reproduces
+		let cancelled_after_post = run.model.deals.iter().any(|d| {
+			(d.cancelled_after_post || (!d.cancelled_by.is_empty() && d.posted))
+				&& (d.payer == Some(w) || d.payee == Some(w) || d.initiator == w)
+				&& d.id != id
+		});
+		if cancelled_after_post && !self.scanned_since_taint.contains(&w) {
+			run.cov.not_judged("wallet_cancelled_a_broadcast_transaction_earlier");
 			return v;
 		}
 		if b.snap.txs.iter().any(|t| t.tx_slate_id == Some(id)) {
